@@ -6,6 +6,7 @@ mod c01;
 mod c03;
 mod c04;
 mod c05;
+mod c07;
 mod c12;
 mod c16;
 mod c13;
@@ -19,6 +20,7 @@ mod corpus;
 mod engine;
 mod proj;
 mod refdiff;
+mod refremap;
 mod refmap;
 mod refmerge;
 mod refmvn;
@@ -103,6 +105,7 @@ fn dispatch(a: &Args, digest_only: bool) -> i32 {
         "C03" => drive(&c03::C03, a, digest_only),
         "C04" => drive(&c04::C04, a, digest_only),
         "C05" => drive(&c05::C05, a, digest_only),
+        "C07" => drive(&c07::C07, a, digest_only),
         "C12" => drive(&c12::C12, a, digest_only),
         "C16" => {
             if let Some(r) = &a.replay {
